@@ -14,6 +14,15 @@ Theorem C11_terminates : forall c cat,
   exists n, n <= S (len c) /\ to_page_dom n c cat <> DFuel.
 Proof. exact terminates_ex. Qed.
 
+(* the statement at exactly the fuel the case protocol and the C01 pipeline model hand over *)
+Theorem C11_enough_fuel : forall c cat, to_page_dom (S (len c)) c cat <> DFuel.
+Proof. exact to_page_dom_enough_fuel. Qed.
+
+(* more fuel never changes an answer *)
+Theorem C11_fuel_mono : forall c cat n m,
+  n <= m -> to_page_dom n c cat <> DFuel -> to_page_dom m c cat = to_page_dom n c cat.
+Proof. exact to_page_dom_fuel_mono. Qed.
+
 (* on success: the recorded ids are exactly the objects reachable from the root node, each once *)
 Theorem C11_once : forall c cat n res pg,
   to_page_dom n c cat = DOk (res, pg) ->
@@ -72,6 +81,8 @@ Theorem C11_pinned_inherit_refuted :
 Proof. exact (conj pinned_resources_two_refs repaired_resources_two_refs). Qed.
 
 Print Assumptions C11_terminates.
+Print Assumptions C11_enough_fuel.
+Print Assumptions C11_fuel_mono.
 Print Assumptions C11_once.
 Print Assumptions C11_inherit.
 Print Assumptions C11_inherit_tree.
